@@ -218,6 +218,11 @@ func c16prop(r *simkit.Run) {
 	if conn != 1 || disc != 1 {
 		r.Fail("listener-unpaired", "%d 'connected' and %d 'disconnected' notifications for one forwarded request %s", conn, disc, ctxt)
 	}
+	// the listener is keyed by URL (it counts open forwardings per URL): the pair is about one URL,
+	// also when the handler behind the listener re-targets the request to the backend (as it does here)
+	if res.events[0].url != res.events[1].url {
+		r.Fail("listener-unpaired-url", "'connected' was notified for %q, the 'disconnected' that follows it for %q %s", res.events[0].url, res.events[1].url, ctxt)
+	}
 	expectStatus := func(what string, ok ...int) {
 		if res.clientErr != nil {
 			r.Fail("no-answer", "%s: the client got no response (%v), proxy recorded %d %s", what, res.clientErr, res.recorded, ctxt)
